@@ -107,6 +107,23 @@ class Helper:
                     n.func.value.id in ("self", "cls"):
                 return
         rets = [n for n in _own_nodes(fn) if isinstance(n, ast.Return)]
+        # `...; try: A; return E finally: F` (the one return ends the try
+        # body, the try ends the function): E is kept, F runs, then return
+        if len(rets) == 1 and isinstance(body[-1], ast.Try) and \
+                body[-1].finalbody and not body[-1].orelse and \
+                body[-1].body and body[-1].body[-1] is rets[0] and \
+                rets[0].value is not None and not any(
+                    isinstance(n, ast.Return)
+                    for h_ in body[-1].handlers for n in ast.walk(h_)):
+            t_ = clone(body[-1])
+            t_.body[-1] = ast.copy_location(ast.Assign(
+                targets=[ast.Name(id="__ret", ctx=ast.Store())],
+                value=t_.body[-1].value), t_.body[-1])
+            ast.fix_missing_locations(t_)
+            self.body = [clone(s_) for s_ in body[:-1]] + [t_]
+            self.ret = ast.Name(id="__ret", ctx=ast.Load())
+            self.kind = "single"
+            return
         if not rets:
             self.kind, self.body = "proc", body
             return
